@@ -63,9 +63,13 @@ type Ctx struct {
 	FuncsSeen   map[string]bool
 	CallSites   int
 	Extra       map[string]interface{}
+	Alias       map[string]string // rule id -> id under which it is registered for this property (a clause shared by two properties)
 }
 
 func (c *Ctx) Rule(rule, doc string, floor int) {
+	if a, ok := c.Alias[rule]; ok {
+		rule = a
+	}
 	if _, ok := c.Rules[rule]; !ok {
 		c.Rules[rule] = &RuleStat{Floor: floor, Doc: doc}
 		c.ruleOrder = append(c.ruleOrder, rule)
@@ -85,6 +89,9 @@ func (c *Ctx) pos(p token.Pos) string {
 }
 
 func (c *Ctx) add(rule, key string, p token.Pos, ok bool, msg string) {
+	if a, has := c.Alias[rule]; has {
+		rule = a
+	}
 	if _, has := c.Rules[rule]; !has {
 		c.Rule(rule, "", 0)
 	}
